@@ -87,26 +87,57 @@ func runC09(c *core.Ctx) {
 		if ps.iter != nil {
 			ps.iter(c, s, w, h)
 		}
-		// one receive site on the input
-		sites := map[ssa.Instruction]bool{}
-		for _, p := range w.An.AllPaths() {
-			for _, st := range p.Events(ir.KRecv) {
-				if isInputChan(st.A[0]) {
-					sites[st.Instr] = true
+		// every receive from the shared input feeds the element loop: it is a comma-ok receive whose ok is tested on
+		// the same segment, or whose two results become the (element, ok) pair of the loop head (init / post
+		// statement of `for x, ok := <-in; ok; x, ok = <-in`); nothing is received and dropped
+		{
+			rot := rotatedReceive(w.An, h)
+			nSites := map[ssa.Instruction]bool{}
+			bad := ""
+			for _, p := range w.An.AllPaths() {
+				for i := range p.Steps {
+					st := &p.Steps[i]
+					if st.Kind == ir.KSelect {
+						for _, a := range st.Arms {
+							if !a.Send && isInputChan(a.Chan) {
+								bad = "the worker receives from the input in a select"
+							}
+						}
+					}
+					if st.Kind != ir.KRecv || !isInputChan(st.A[0]) {
+						continue
+					}
+					nSites[st.Instr] = true
 					if !st.CommaOk {
-						sites[nil] = true
+						bad = "the worker receives from the input without testing for its close"
+						continue
+					}
+					tested := false
+					for j := i + 1; j < len(p.Steps); j++ {
+						b := &p.Steps[j]
+						if b.Kind == ir.KBranch && b.Atom.Op == "extract" && b.Atom.Aux == "1" && ir.Same(b.Atom.Args[0], st.R) {
+							tested = true
+						}
+					}
+					feeds := false
+					if rot != nil && p.To == h {
+						okV := p.PhiOut[rot.ok]
+						feeds = okV != nil && len(okV.Args) == 1 && ir.Same(okV.Args[0], st.R)
+						if rot.x != nil {
+							xV := p.PhiOut[rot.x]
+							feeds = feeds && xV != nil && len(xV.Args) == 1 && ir.Same(xV.Args[0], st.R)
+						}
+					}
+					if !tested && !feeds {
+						bad = "a value received from the input is neither tested nor handed to the element loop (it is dropped)"
 					}
 				}
 			}
-			for _, st := range p.Events(ir.KSelect) {
-				for _, a := range st.Arms {
-					if !a.Send && isInputChan(a.Chan) {
-						sites[nil] = true
-					}
-				}
+			if len(nSites) == 0 {
+				bad = "the worker never receives from the input"
 			}
+			c.Check(bad == "", "one-range-per-worker", name, w.Fn.Pos(), "every receive from the input feeds the worker's single element loop", "%s", bad)
 		}
-		c.Check(len(sites) == 1 && !sites[nil], "one-range-per-worker", name, w.Fn.Pos(), "one range over the input", "the worker receives from the input at %d sites (or outside a range loop)", len(sites))
 		workerLocalState(c, name, s, w)
 		stageLifecycleRules(c, s, lifecycleOpts{})
 		exxProvenance(c, "C09", s)
